@@ -324,6 +324,14 @@ class SimRunFormula(Contract):
                                 v.fields.get("parameter_node_at_instant") is views[0]["value"] and v.fields.get("tracer") is w.tracer))
                 else:
                     res.append(("view-is-the-system-view", v is views[0]["value"]))
+                # a second read of the same period (the tree may have been replaced in between: the site hands out a new view)
+                v2 = I.call(ctx, pa, [a["period"]], {})
+                views = log_of(ctx, "params_at")
+                again = len(views) == 2
+                res.append(("every-read-asks-the-system-again", again))
+                if again:
+                    inner = v2.fields.get("parameter_node_at_instant") if (w.sim.fields["_trace"] and isinstance(v2, Obj)) else v2
+                    res.append(("and-gives-the-view-the-system-has-then", inner is views[1]["value"]))
         return res
 
 
